@@ -166,7 +166,7 @@ def renderViol : Viol → String
   | .fifo u t => s!"fifo user=u{u} text={enc t}: executed command is not the oldest pending input"
   | .idleWait n u => s!"idle-wait cycle={n} user=u{u}: backend blocks in poll although a complete command is buffered"
   | .overtaken u v n => s!"overtaken user=u{u} waiting=u{v} cycle={n}: served again while another user with a complete command still waits"
-  | .typeaheadDiscard u t => s!"typeahead-discard user=u{u} text={enc t}: the backlog of this user had reached the size at which get_user_data discards the text buffer (complete commands included) - open finding C13-typeahead-discard"
+  | .typeaheadDiscard u t => s!"typeahead-discard user=u{u} text={enc t}: the backlog of this user had reached the size at which get_user_data discards an unfinished over-long line (complete commands are held back, not discarded, since 57d7cb1)"
   | .efun t x => s!"efun user=u{t} text={enc x}: command() was not executed at once"
   | .outside u => s!"outside user=u{u}: buffered command executed outside a backend cycle"
   | .crash w => s!"crash {w}"
